@@ -468,6 +468,34 @@ fn c12_stop_settles_a_waiter_that_polls() {
     core::mem::forget(p);
 }
 
+#[kani::proof]
+#[kani::unwind(3)]
+#[kani::stub(crate::common::now, vnow)]
+#[kani::stub(alloc::fmt::format, fmt_stub)]
+#[kani::stub(crate::common::page_size, page_size_stub)]
+#[kani::stub(crate::common::beans::BeanFactory::get_or_default, StubFactory::get_or_default)]
+fn c12_stop_settles_a_waiter_that_polls_fixed_id() {
+    small_queues();
+    let mut p = pool("p");
+    // (concrete id: the quick-tier twin of the harness above, whose symbolic id costs 28 GB / 260 s of SAT)
+    let id: u64 = 7;
+    let first_timed_out = {
+        let r1 = p.wait_task_result(id, Duration::from_millis(5));
+        let e = r1.is_err();
+        core::mem::forget(r1);
+        e
+    };
+    kani::assert(first_timed_out, "nothing has happened yet: the first poll times out");
+    p.do_clean();
+    let r2 = p.wait_task_result(id, Duration::from_millis(5));
+    kani::assert(matches!(r2, Ok(Err(_))), "after the pool stopped, the polling waiter gets the stop error instead of timing out again");
+    unsafe {
+        kani::assert(verif_sync::FULL_TIMEOUTS == 1, "only the first poll slept through its timeout");
+    }
+    core::mem::forget(r2);
+    core::mem::forget(p);
+}
+
 // =============================================================================================== C13
 /// Two queued tasks, one of them (symbolic) is cancelled before it starts: the worker skips exactly that one, runs the other
 /// one once, the cancel mark is consumed, and the waiter of the cancelled task is not left blocked until its timeout.
@@ -529,12 +557,38 @@ fn cancel_before_start_affects_only_that_task(cancel_first: bool) {
     let ro = p.wait_task_result(oid, Duration::from_millis(5));
     kani::assert(matches!(ro, Ok(Ok(x)) if x == ov), "the other task's waiter gets its result");
     kani::assert(p.try_run().is_none(), "nothing is left queued");
-    // a waiter that only arrives after the worker discarded the cancelled task is answered too (it must not sleep out its timeout)
-    let rc = p.wait_task_result(cid, Duration::from_secs(3600));
-    kani::assert(matches!(rc, Ok(Err(_))), "a late waiter of the cancelled task is told that it was cancelled");
-    unsafe { kani::assert(verif_sync::FULL_TIMEOUTS == 0, "no waiter slept until its timeout") };
     kani::cover!(true, "reached");
     core::mem::forget(ro);
+    core::mem::forget(p);
+}
+
+/// A waiter that only arrives AFTER the worker discarded the cancelled task is answered too (it must not sleep out its timeout).
+/// (Own harness: adding this wait to the two-task harnesses above doubled their size past 28 GB.)
+#[kani::proof]
+#[kani::unwind(3)]
+#[kani::stub(crate::common::now, vnow)]
+#[kani::stub(alloc::fmt::format, fmt_stub)]
+#[kani::stub(crate::common::page_size, page_size_stub)]
+#[kani::stub(crate::common::beans::BeanFactory::get_or_default, StubFactory::get_or_default)]
+#[kani::stub(crate::common::ordered_work_steal::OrderedLocalQueue::push, QStub::push)]
+#[kani::stub(crate::common::ordered_work_steal::OrderedLocalQueue::pop, QStub::pop)]
+#[kani::stub(crate::common::ordered_work_steal::OrderedLocalQueue::is_empty, QStub::is_empty)]
+fn c13_late_waiter_of_a_cancelled_task_is_answered() {
+    small_queues();
+    CANCEL_TASKS.clear();
+    RUNNING_TASKS.clear();
+    unsafe { RAN = [0; 2] };
+    let p = pool("p");
+    let id = p.submit_task(Some(String::from("t0")), |p| task0(p), kani::any(), kani::any()).expect("submit");
+    CoroutinePool::try_cancel_task(id);
+    kani::assert(p.try_run().is_some(), "the worker meets the cancelled task");
+    let rc = p.wait_task_result(id, Duration::from_secs(3600));
+    kani::assert(matches!(rc, Ok(Err(_))), "a late waiter of the cancelled task is told that it was cancelled");
+    unsafe {
+        kani::assert(RAN[0] == 0, "the cancelled task never ran");
+        kani::assert(verif_sync::FULL_TIMEOUTS == 0, "the late waiter did not sleep until its timeout");
+    }
+    kani::cover!(true, "reached");
     core::mem::forget(rc);
     core::mem::forget(p);
 }
